@@ -1,9 +1,48 @@
 import Gzx.Util
+import Gzx.Model.Interference
 namespace Gzx.Driver.C18
-open Gzx
+open Gzx Gzx.Interference
 
-/-- line-protocol handler of suite `c18` (arguments after the suite name) -/
+def splitList (s : String) : List String :=
+  if s == "-" || s.isEmpty then [] else s.splitOn ";"
+
+/-- a tiny step language for `run`: `r<reg>.<loc>` read, `w<loc>.<reg>.<k>` write reg+k to loc -/
+def parseStep (t : String) : Option Step :=
+  match t.toList with
+  | 'r' :: rest =>
+    match (String.ofList rest).splitOn "." with
+    | [a, b] => match a.toNat?, b.toNat? with
+      | some r, some l => some (.read r l)
+      | _, _ => none
+    | _ => none
+  | 'w' :: rest =>
+    match (String.ofList rest).splitOn "." with
+    | [a, b, c] => match a.toNat?, b.toNat?, c.toNat? with
+      | some l, some r, some k => some (.write l (fun p => p r + (k : Int)))
+      | _, _, _ => none
+    | _ => none
+  | _ => none
+
+def parseProg (s : String) : Option (List Step) := (splitList s).mapM parseStep
+
+/-- line-protocol handler of suite `c18` -/
 def handle : List String → String
+  | ["premise", writes, allowed] =>
+    -- the effect summary of the scanner against the reviewed allow-list: the decidable form of
+    -- `Independent.noSharedWrite` for the functions reachable outside init
+    match premiseViolations (splitList writes) (splitList allowed) with
+    | [] => "ok"
+    | vs => "violated:" ++ ";".intercalate vs
+  | ["run", p0, p1, sched, regs] =>
+    -- two goroutines, schedule of 0/1 digits; prints registers 0..regs-1 of both and G[0..7]
+    match parseProg p0, parseProg p1, regs.toNat? with
+    | some a, some b, some n =>
+      let prog : Gid → List Step := fun g => if g = 0 then a else if g = 1 then b else []
+      let sc := sched.toList.filterMap (fun c => if c = '0' then some 0 else if c = '1' then some 1 else none)
+      let st := run prog sc (init (fun _ _ => 0) (fun _ => 0))
+      let show1 (g : Nat) := ",".intercalate ((List.range n).map (fun r => toString (st.P g r)))
+      s!"{show1 0}|{show1 1}|" ++ ",".intercalate ((List.range 8).map (fun l => toString (st.G l)))
+    | _, _, _ => "bad-op"
   | _ => "bad-op"
 
 end Gzx.Driver.C18
